@@ -6,6 +6,9 @@ CONSTANTS
     Design = "direct"
     Policy = "validate"
     RenameAt = "closed"
+    Memo = FALSE
+    MaxClear = 0
+    MaxExtra = 0
     MaxCrash = 2
     Fifo = TRUE
     EmitOn = FALSE
@@ -13,6 +16,7 @@ INIT Init
 NEXT Next
 INVARIANT TypeOK
 INVARIANT NoRaise
+INVARIANT RightResults
 INVARIANT NoRecompute
 INVARIANT FinalWhole
 INVARIANT OneOwner
